@@ -52,6 +52,12 @@ func (r *RigS) afterStep(crashing bool) {
 								r.bgPaused = map[int]bool{}
 							}
 							r.bgPaused[t.Spec.tgt()] = true
+							if loopFailureReason(ti.Reason) {
+								if r.loopFailed == nil {
+									r.loopFailed = map[int]bool{}
+								}
+								r.loopFailed[t.Spec.tgt()] = true
+							}
 						}
 					}
 				}
@@ -1565,6 +1571,164 @@ func (r *RigS) finalOracles() {
 			// the same observation read as C06: a message that is not delivered while its task stays Running was skipped silently
 			s.Violate("C06", "silently_skipped"+cls, "task %s is Running (store and memory) and idle at the end, no failure is shown, but messages %v of collection %d shard %d never reached target %d", owner, lost, coll, shard, tgt)
 		}
+	}
+}
+
+// ------------------------------------------------------------------ recovery phase (C05 / C06)
+
+// loopFailureReason: the reason a task was paused with was written by one of the loops that all tasks of a downstream
+// share (the event loop, the per-channel write loop): those loops RETURN after such a failure (KF bystander-of-failed-task).
+// Failures met by a task's own goroutines (its catalog reader, its operation channel, its start) leave the loops running.
+func loopFailureReason(reason string) bool {
+	for _, p := range []string{"fail to read the replicate event", "fail to update start task position", "fail to handle the replicate event",
+		"fail to delete collection position", "fail to handle replicate message", "fail to update task position", "fail to pack replicate message"} {
+		if strings.HasPrefix(reason, p) {
+			return true
+		}
+	}
+	return false
+}
+
+// recoveryPhase: the operator resumes every task that is Paused at the end of the fault-free drain, one at a time, and the
+// run is drained again. Afterwards everything of the replication domain of a resumed task that runs has to be acknowledged
+// ("the failing message is not skipped: after the fault is lifted and the task resumed every row arrives").
+func (r *RigS) recoveryPhase(drain func()) {
+	s := r.s
+	tasks, err := r.storeTasks()
+	sn, ok := r.cdc.VerifTrySnapshot()
+	if err != nil || !ok || len(s.Parked()) != 0 {
+		return
+	}
+	var ids []string
+	for _, id := range SortedKeys(tasks) {
+		if mt, have := sn.Tasks[id]; have && tasks[id].State == meta.TaskStatePaused && mt.State == "Paused" && r.st.Tasks[id] != nil && r.st.Tasks[id].Spec != nil && r.st.Tasks[id].Spec.tgt() >= 0 {
+			ids = append(ids, id)
+			if mt.Reason != "" && loopFailureReason(mt.Reason) {
+				if r.loopFailed == nil {
+					r.loopFailed = map[int]bool{}
+				}
+				r.loopFailed[r.st.Tasks[id].Spec.tgt()] = true
+			}
+		}
+	}
+	if len(ids) == 0 {
+		return
+	}
+	s.Probe("recovery_phase")
+	r.recovered = map[string]bool{}
+	for _, id := range ids {
+		r.sc.Ops = append(r.sc.Ops, SOp{K: "resume", Task: id})
+		idx := len(r.sc.Ops) - 1
+		r.st.OpPos = len(r.sc.Ops)
+		s.logf("%04d recovery: resume %s", s.Step, id)
+		r.startOp(idx)
+		drain()
+		for _, rec := range r.st.OpLog {
+			if rec.Idx == idx && rec.Code == 200 {
+				r.recovered[id] = true
+			}
+		}
+	}
+	drain()
+	if r.opBusy {
+		return
+	}
+	tasks, err = r.storeTasks()
+	sn, ok = r.cdc.VerifTrySnapshot()
+	if err != nil || !ok || len(s.Parked()) != 0 {
+		s.Probe("recovery_not_quiescent")
+		return
+	}
+	// every live collection that a resumed task selects is being read again: one open stream per shard (what property C13
+	// says about a task's start, seen on the resume of a task that had stopped itself)
+	if r.st.HistPos >= len(r.sc.History) {
+		for _, c := range r.sc.Colls {
+			if r.droppedAtSource(c.ID) {
+				continue
+			}
+			if _, dropping := r.st.CatDropAt[fmt.Sprint(c.ID)]; dropping {
+				continue
+			}
+			for tgt := range r.sdk {
+				owner := r.ownerOf(tgt, c.ID)
+				if owner == "" || !r.recovered[owner] || tasks[owner] == nil || tasks[owner].State != meta.TaskStateRunning || sn.Tasks[owner].State != "Running" {
+					continue
+				}
+				if r.st.SDK[tgt].Colls[c.DB+"/"+c.Name] == nil {
+					continue // not created downstream (yet): the create event is what starts the streams
+				}
+				s.Probe("recovery_streams_checked")
+				for sh := 0; sh < c.Shard; sh++ {
+					open := false
+					for _, st := range r.mq.All {
+						if st.Coll == c.ID && st.Shard == sh && st.PCh != replicateChan && !st.Closed && r.targetOfStream(st) == tgt {
+							open = true
+						}
+					}
+					if open {
+						continue
+					}
+					cls := r.classOf(tasks, owner)
+					if cls == "" && r.loopFailed[tgt] {
+						cls = "_bystander_of_failed_task"
+					}
+					if cls == "" {
+						cls = r.classOf(tasks, r.tasksOn(tgt)...)
+					}
+					s.Violate("C05", "recovery_collection_not_read"+cls, "task %s was resumed by the operator after the faults were lifted and runs, it selects the live collection %s (%d), but no stream of shard %d of that collection is registered for downstream %d: the collection is not replicated any more", owner, c.Name, c.ID, sh, tgt)
+					s.Violate("C06", "recovery_collection_not_read"+cls, "task %s was resumed by the operator after the faults were lifted and runs (store and memory), no failure is shown, it selects the live collection %s (%d), but no stream of shard %d of that collection is registered for downstream %d", owner, c.Name, c.ID, sh, tgt)
+				}
+			}
+		}
+	}
+	for _, key := range SortedKeys(r.st.Domain) {
+		owner, tgt, coll, shard := parseDomainKey(key)
+		if tgt < 0 || !r.recovered[owner] || tasks[owner] == nil || r.collByID[coll] == nil {
+			continue
+		}
+		if tasks[owner].State != meta.TaskStateRunning || sn.Tasks[owner].State != "Running" {
+			s.Probe("recovered_task_not_running_at_end")
+			continue
+		}
+		if r.droppedAtSource(coll) {
+			continue
+		}
+		set := r.ackedSet(tgt)
+		log := r.mq.Logs[srcPCh(shard)]
+		var lost []int64
+		for i := r.st.Domain[key]; i < len(log); i++ {
+			e := log[i]
+			if (e.Kind == "ins" || e.Kind == "del") && e.Coll == coll && e.Shard == shard && !r.partDropped(e) {
+				if _, ok := set[e.Tag]; !ok {
+					lost = append(lost, e.Tag)
+				}
+			}
+		}
+		s.Probe("recovery_liveness_checked")
+		if len(lost) == 0 {
+			continue
+		}
+		cls := r.classOf(tasks, owner)
+		if cls == "" && r.loopFailed[tgt] {
+			cls = "_bystander_of_failed_task"
+		}
+		if cls == "" {
+			cls = r.classOf(tasks, r.tasksOn(tgt)...)
+		}
+		if r.st.StaleAck[fmt.Sprintf("%d|%d|%d", tgt, coll, shard)] {
+			cls = "_stale_pack_after_resume"
+		}
+		if r.consequenceOfTimeSkip(key, lost) {
+			cls = "_after_restamped_time_skip"
+		}
+		if r.consequenceOfOvertaking(key, lost) {
+			cls = "_forwarded_pack_overtaken"
+		}
+		if cls == "" && r.waitsInBatcher(tgt, coll, shard, lost) {
+			cls = "_forwarded_pack_waits_in_batcher"
+		}
+		s.Violate("C05", "recovery_lost_message"+cls, "task %s was resumed by the operator after the faults were lifted, runs and is idle, but messages %v of collection %d shard %d never reached target %d", owner, lost, coll, shard, tgt)
+		s.Violate("C06", "recovery_silently_skipped"+cls, "task %s was resumed by the operator after the faults were lifted, runs (store and memory) and is idle, no failure is shown, but messages %v of collection %d shard %d never reached target %d", owner, lost, coll, shard, tgt)
 	}
 }
 
